@@ -175,6 +175,48 @@ def run(chk):
                         why = "unknown field %r was not re-emitted unchanged" % k
         if why:
             chk.violate({"kind": "property", "case": lib.show_case(c), "impl": i[:1500], "explanation": why})
+    # LONG values: a single line of 4095 ... 131072 bytes in a string field, in a multi-line field (between short lines), in a
+    # joined list and in an unknown field of the embedded paragraph round-trips like any other (implementation only: the
+    # extracted model's list reversal is quadratic)
+    lc, lw = [], []
+    fields = PROBES["probe_scalars"]
+    for n in (4095, 4096, 4097, 65535, 65536, 65537, 70000, 131072):
+        for where in ("str", "text", "unknown"):
+            long_line = bytes(rng.choice(b"abcdefghij klmnop.:-") for _ in range(n - 2)).replace(b"  ", b" x")
+            long_line = b"L" + long_line.strip() + b"E"
+            found = [(b"X-Big", long_line)] if where == "unknown" else []
+            args = [b"probe_scalars", len(found)]
+            for k, v in found:
+                args += [k, v]
+            want = {}
+            for (gname, key, kind, flags) in fields:
+                a, c, v = gen_field(rng, kind)
+                if where == "str" and gname == "Name":
+                    a, c, v = long_line, hx(long_line), long_line
+                if where == "text" and gname == "Text":
+                    v = b"first line\n" + long_line + b"\nlast line"
+                    a, c = v, hx(v)
+                if kind == "text" and v != b"":
+                    c = hx(v + b"\n")
+                args.append(a); want[gname] = c
+            lc.append(("croundtrip", args)); lw.append((want, long_line if where == "unknown" else None))
+    li = chk.run_impl(lc)
+    chk.record("long-values", lc, li, lambda c, r: r.startswith("ok"))
+    for c, i, (want, unk) in zip(lc, li, lw):
+        parts = i.split(" ", 3)
+        why = None
+        if len(parts) < 4 or parts[0] != "ok" or parts[2] != "ok":
+            why = "marshalling or unmarshalling a value with a long line failed (%s)" % i[:60]
+        else:
+            got = dict(kv.split("=", 1) for kv in split_record(parts[3]))
+            for g, cn in want.items():
+                if got.get(g) != cn:
+                    why = "field %s with a long line does not round-trip (%d bytes came back, %d expected)" % (g, (len(got.get(g, "x")) - 1) // 2, (len(cn) - 1) // 2)
+            if unk is not None and (b"X-Big: " + unk + b"\n") not in bytes.fromhex(parts[1][1:]):
+                why = "an unknown field with a long line was not re-emitted unchanged"
+        if why:
+            chk.violate({"kind": "property", "case": lib.show_case((c[0], [a if not isinstance(a, bytes) or len(a) < 200 else a[:60] + b"...<%d bytes>" % len(a) for a in c[1]])),
+                         "impl": i[:300], "explanation": why})
     # Paragraph.Set / Paragraph.Update on their own: receiver and other built by Set from key/value pairs with repeated and
     # shared keys; the expectation is computed here from the definition (receiver's fields first, other's new fields after,
     # other's values win), and the harness also checks that Update leaves its operands alone and that results share no state
